@@ -12,15 +12,6 @@ import Tickit.Gen.XTermFacts
 namespace Tickit.Props.C09
 open Tickit Tickit.VT Tickit.XTermDrv
 
-/-- A screen with a distinct glyph in every cell (for the non-vacuity examples and the counterexamples). -/
-def cexScreen (lines cols : Int) : VTState :=
-  VTState.init lines cols (fun l c => ⟨(l * cols + c).toNat + 0x100000, -1, false⟩)
-
-/-- A 4x6 screen, cursor at (1,2), background 3, reverse video, DECLRMM set. -/
-def exScreen : VTState := { cexScreen 4 6 with row := 1, col := 2, declrmm := true, rv := true, bg := 3 }
-
-theorem exScreen_wf : Spec.WF exScreen := by constructor <;> decide
-
 /-! ### `%d` round trip -/
 
 /-- What the driver prints with `%d` is read back as the same number. -/
@@ -114,9 +105,9 @@ example := move_effect exScreen exScreen_wf (-1) 3 (by decide) (by decide)
 /-- `print` of printable ASCII text that fits in the row: exactly the cells under the text change, to the text's
     glyphs with the current attributes; the cursor ends after the text (on the last column with the wrap pending if
     the text ends exactly at the right edge). -/
-theorem print_effect (vt : VTState) (hw : Spec.WF vt) (hpw : vt.pendingWrap = false) (text : List UInt8)
+theorem print_effect (fx : Fixes) (vt : VTState) (hw : Spec.WF vt) (hpw : vt.pendingWrap = false) (text : List UInt8)
     (hp : ∀ b ∈ text, 0x20 ≤ b ∧ b < 0x7f) (hne : text ≠ []) (hfit : vt.col + text.length ≤ vt.cols) :
-    run (print text text.length) vt =
+    run (print fx text text.length) vt =
     { vt with
       grid := Spec.printGrid (text.map UInt8.toNat) vt,
       col := if vt.col + text.length < vt.cols then vt.col + text.length else vt.cols - 1,
@@ -125,14 +116,38 @@ theorem print_effect (vt : VTState) (hw : Spec.WF vt) (hpw : vt.pendingWrap = fa
     cases text with
     | nil => exact absurd rfl hne
     | cons _ _ => simp
-  have : print text text.length = text := by simp [print, hlen]
+  have : print fx text text.length = text := by simp [print, hlen]
   rw [this, run_ascii text hp hne vt hw.ground hpw hfit]
   apply VTState.ext <;> try rfl
   funext l c
   simp only [textGrid, Spec.printGrid, List.length_map, getD_map_toNat]
 
 /-- four characters from column 2 of 6: the text ends exactly at the right edge -/
-example := print_effect exScreen exScreen_wf rfl [0x68, 0x65, 0x79, 0x21] (by decide) (by decide) (by decide)
+example := print_effect Fixes.none exScreen exScreen_wf rfl [0x68, 0x65, 0x79, 0x21] (by decide) (by decide) (by decide)
+
+/-- `printn(str, len)` sends exactly the first `len` bytes (the full clause for the byte count). -/
+def C09_print_len (fx : Fixes) : Prop :=
+  ∀ (str : List UInt8) (len : Nat), len ≤ str.length → print fx str len = str.take len
+
+/-- … which holds for every non-zero length. -/
+theorem print_len_partial (fx : Fixes) (str : List UInt8) (len : Nat) (h : len ≠ 0) :
+    print fx str len = str.take len := by
+  simp [print, h]
+
+/-- DEFECT (unchanged tree): `tickit_term_printn(tt, "abc", 0)` sends `abc`: `write_str` takes `len == 0` for
+    "use `strlen`". -/
+theorem print_zero_len_counterexample : ¬ C09_print_len Fixes.none := by
+  intro h
+  have h1 := h [0x61, 0x62, 0x63] 0 (by decide)
+  revert h1
+  decide
+
+/-- With the guard of `fixes/C09_printn_zero_len.patch` the clause holds in full. -/
+theorem print_len_of_guard (fx : Fixes) (hfx : fx.printnGuard = true) : C09_print_len fx := by
+  intro str len _
+  by_cases h : len = 0
+  · subst h; simp [print, hfx]
+  · exact print_len_partial fx str len h
 
 /-! ### Clear -/
 
@@ -465,6 +480,103 @@ example := scroll_success_effect Fixes.none exScreen exScreen_wf ⟨false, true,
 example := scroll_success_effect Fixes.none exScreen exScreen_wf ⟨true, true, false⟩ (fun _ => rfl) ⟨2, 1, 1, 4⟩ 0 (-3)
   (by constructor <;> decide) (by intro _ h; revert h; decide) (by decide)
 
+/-! ### Sequences of requests -/
+
+/-- One request, in range on a well-formed screen, has exactly its effect and leaves a well-formed screen on which
+    the assumptions about the driver-side state still hold. -/
+theorem request_effect (fx : Fixes) (d : Drv) (vt : VTState) (hw : Spec.WF vt) (hcaps : Spec.CapsOK d.caps vt)
+    (hcols : d.cols = vt.cols) (hrv : vt.rv = d.pen.reverse) (q : Request) (hq : InContract fx d vt q) :
+    StepOK fx d vt (run (request fx d q).2 vt) q ∧ Spec.WF (run (request fx d q).2 vt) ∧
+    Spec.CapsOK d.caps (run (request fx d q).2 vt) ∧ d.cols = (run (request fx d q).2 vt).cols ∧
+    (run (request fx d q).2 vt).rv = d.pen.reverse := by
+  have hw' := hw
+  obtain ⟨g, r1, r2, c1, c2, m1, m2, m3, m4⟩ := hw'
+  cases q with
+  | goto line col =>
+    obtain ⟨hl, hc⟩ := hq
+    simp only [request, StepOK]
+    rw [goto_effect vt hw line col hl hc]
+    refine ⟨rfl, ?_, ?_, ?_, ?_⟩
+    · unfold Spec.goto; split
+      · exact hw
+      · constructor <;> simp only [] <;> first | assumption | (split <;> omega)
+    · unfold Spec.goto; split <;> exact hcaps
+    · unfold Spec.goto; split <;> exact hcols
+    · unfold Spec.goto; split <;> exact hrv
+  | move dn rt =>
+    obtain ⟨hr, hc⟩ := hq
+    simp only [request, StepOK]
+    rw [move_effect vt hw dn rt hr hc]
+    refine ⟨rfl, ?_, ?_, ?_, ?_⟩
+    · unfold Spec.move; split
+      · exact hw
+      · constructor <;> simp only [] <;> first | assumption | omega
+    · unfold Spec.move; split <;> exact hcaps
+    · unfold Spec.move; split <;> exact hcols
+    · unfold Spec.move; split <;> exact hrv
+  | print s n =>
+    obtain ⟨hpw, hn, hne, hascii, hfit⟩ := hq
+    subst hn
+    simp only [request, StepOK]
+    rw [print_effect fx vt hw hpw s hascii hne hfit]
+    refine ⟨rfl, ?_, hcaps, hcols, hrv⟩
+    constructor <;> simp only [] <;> first | assumption | (split <;> omega)
+  | erasech n me =>
+    obtain ⟨hpw, h1, hfit, h64, hlast⟩ := hq
+    simp only [request, StepOK]
+    have he := erasech_effect fx vt hw hpw d.pen.reverse hrv n me h1 hfit h64 hlast
+    obtain ⟨⟨e1, e2, e3, e4, e5, e6, e7, e8, e9, e10⟩, _, erow, _, _, ecol⟩ := he
+    refine ⟨erasech_effect fx vt hw hpw d.pen.reverse hrv n me h1 hfit h64 hlast, ?_, ?_, ?_, ?_⟩
+    · exact ⟨e10.trans g, by omega, by omega, by omega, by omega, by omega, by omega, by omega, by omega⟩
+    · intro h; rw [e7]; exact hcaps h
+    · rw [e2]; exact hcols
+    · rw [e9]; exact hrv
+  | clear =>
+    simp only [request, StepOK]
+    rw [clear_effect vt hw]
+    exact ⟨rfl, ⟨g, r1, r2, c1, c2, m1, m2, m3, m4⟩, hcaps, hcols, hrv⟩
+  | scroll r dn rt =>
+    obtain ⟨hin, hone⟩ := hq
+    simp only [request, StepOK]
+    rw [hcols]
+    cases hret : (scrollrect fx d.caps vt.cols r dn rt).1 with
+    | false =>
+      rw [scroll_failure_silent fx d.caps vt.cols r dn rt hret, run_nil]
+      simp only [Bool.false_eq_true, if_false]
+      exact ⟨trivial, hw, hcaps, trivial, hrv⟩
+    | true =>
+      have hs := scroll_success_effect fx vt hw d.caps hcaps r dn rt hin hone hret
+      obtain ⟨⟨e1, e2, e3, e4, e5, e6, e7, e8, e9, e10⟩, _, s1, s2, s3, s4⟩ := hs
+      simp only [if_true]
+      refine ⟨scroll_success_effect fx vt hw d.caps hcaps r dn rt hin hone hret, ?_, ?_, ?_, ?_⟩
+      · exact ⟨e10.trans g, by omega, by omega, by omega, by omega, by omega, by omega, by omega, by omega⟩
+      · intro h; rw [e7]; exact hcaps h
+      · exact e2.symm
+      · rw [e9]; exact hrv
+
+/-- THE PROPERTY, for sequences: starting from any well-formed screen of any size and content, with any capability
+    combination and either state of reverse video, every request of a sequence of drawing requests that are in range
+    when their turn comes has exactly the requested effect on the VT-conformant screen, and the screen stays well
+    formed (no margins left set, tokenizer in the ground state, cursor on the screen). -/
+theorem sequence_effect (fx : Fixes) (d : Drv) (qs : List Request) (vt : VTState) (hw : Spec.WF vt)
+    (hcaps : Spec.CapsOK d.caps vt) (hcols : d.cols = vt.cols) (hrv : vt.rv = d.pen.reverse)
+    (hq : AllInContract fx d vt qs) :
+    AllStepsOK fx d vt qs ∧ Spec.WF (runRequests fx d vt qs) := by
+  induction qs generalizing vt with
+  | nil => exact ⟨trivial, hw⟩
+  | cons q rest ih =>
+    obtain ⟨hq1, hq2⟩ := hq
+    obtain ⟨a, b, c, e, f⟩ := request_effect fx d vt hw hcaps hcols hrv q hq1
+    have := ih _ b c e f hq2
+    exact ⟨⟨a, this.1⟩, this.2⟩
+
+/-- a goto, a print up to the right edge, a column-only goto back and a reverse-video erase, on `exScreen` -/
+example : AllInContract Fixes.none ⟨⟨true, false, false⟩, 4, 6, ⟨true, some 3, some true⟩⟩ exScreen
+    [.goto 2 3, .print [0x61, 0x62, 0x63] 3, .goto (-1) 1, .erasech 4 .no] :=
+  ⟨⟨by decide, by decide⟩, ⟨by decide +kernel, rfl, by decide, by decide, by decide +kernel⟩,
+   ⟨by decide, by decide +kernel⟩,
+   ⟨by decide +kernel, by decide, by decide +kernel, by decide, by decide +kernel⟩, trivial⟩
+
 /-! ### The full clauses, and the defects that refute them on the unchanged tree -/
 
 /-- The scroll clause with no side condition beyond the in-range contract. -/
@@ -528,8 +640,8 @@ theorem erase_last_col_counterexample (fx : Fixes) : ¬ C09_erase_full fx := by
     (by decide)
   have h2 := (h1.2.2.2.1 rfl).1
   revert h2
-  rcases fx with ⟨a, b⟩
-  cases a <;> cases b <;> decide +kernel
+  rcases fx with ⟨a, b, c⟩
+  cases a <;> cases b <;> cases c <;> decide +kernel
 
 /-! ### Tie to the source: constants and format strings regenerated from `termdriver-xterm.c` on every run -/
 
